@@ -1,4 +1,5 @@
 fn main() {
     // the real generator, run on every build of the harness
     varlink_generator::cargo_build("idl/org.example.vtest.varlink");
+    varlink_generator::cargo_build("idl/org.example.crlf.varlink");
 }
